@@ -40,6 +40,46 @@ CHECKS = {
    design_ref='DESIGN.md 3.2, 6 (C18)',
    note='Trusts TLC and the statement recorder (connection.execute_wrapper). Tables linked by a RenameModel count as one table.',
    technique='TLA+ transcription of the merge/rebuild plan + TLC + statement-trace replay'),
+ 'C04': dict(
+   engine='runs', category='model_checking',
+   text=('Evolver.tla models the upgrade-run protocol over the persistent state (tables, stored signature, '
+         'Version/Evolution rows, open transaction); TLC checks Converged and RerunIsNoop for every history of '
+         'deployments and runs in scope and prints one history per reachable state. The histories are replayed on a '
+         'synthetic project (real evolutions discovered the normal way) through Evolver.evolve() and the evolve command; '
+         'every run is traced and accepted by EvolverTrace, and each completed run is judged against a real fresh install '
+         '(schema, stored signature, recorded labels) plus a re-run through the command that must write nothing.'),
+   design_ref='DESIGN.md 3.5, 6 (C04)',
+   note='Chain-family evolutions make the version abstraction exact. Trusts TLC, the runner recorders and the SQLite projection.',
+   technique='TLA+ design model + TLC history generation + replay + trace validation (EvolverTrace)'),
+ 'C07': dict(
+   engine='runs', category='fault_enumeration',
+   text=('Evolver.tla explores a fault at every abstract statement of every unit of a run and checks '
+         'FailedRunIsInvisible / RejectTouchesNothing; each fault history is replayed with an injected OperationalError at '
+         'the corresponding real statement, traced and validated by EvolverTrace; additionally every concrete statement '
+         'index k of single-unit upgrades (all version pairs, fresh creation) is made to fail. Verdict: the failing unit '
+         'leaves tables, signature and Evolution rows as they were, the error names the statement, and a fault-free retry converges.'),
+   design_ref='DESIGN.md 3.5, 6 (C07)',
+   note='Faults are injected by connection.execute_wrapper before the statement executes; only schema/data statements of application tables are fault points (deferred SQL of new models not yet enumerated).',
+   technique='TLA+ fault model + TLC + fault injection at every statement + trace validation'),
+ 'C08': dict(
+   engine='runs', category='model_checking',
+   text=('Evolver.tla keeps Evolution rows as a bag and counts executions per label; TLC checks ExecutedAtMostOnce, '
+         'RecordedAtMostOnce, RecordedWithinVersions, RecordedOnlyWithTables, FreshRecordsWithoutExecuting over histories with '
+         'partial upgrades, re-runs, failed runs and two apps sharing labels. Replayed histories are judged on the raw rows of '
+         'django_evolution after every run and on the applied_evolution signals across the history; traces validated by EvolverTrace.'),
+   design_ref='DESIGN.md 3.5, 6 (C08)',
+   note='mark-evolution-applied / wipe-evolution interleavings are not yet in the model.',
+   technique='TLA+ design model + TLC history generation + replay + trace validation'),
+ 'C17': dict(
+   engine='runs', category='model_checking',
+   text=('The signal log is a variable of Evolver.tla; TLC checks EvolvingAtMostOnce, EvolvingBeforeAnyChange, '
+         'ExactlyOneTerminalSignal, EvolvedIffSaved, PairedUnlessFailed, NoTerminalWithoutEvolving for fault-free and faulted '
+         'runs. Every replayed run is recorded through receivers on all nine signals interleaved with the statement and '
+         'commit stream; EvolverTrace must accept it and the signal clauses are evaluated after every event; direct checks '
+         'cover pairing, payloads, statements outside windows and the management lock.'),
+   design_ref='DESIGN.md 3.5, 6 (C17)',
+   note='Receivers are connected in the runner process (weak=False).',
+   technique='TLA+ design model + TLC + trace validation of recorded signal/statement streams'),
 }
 
 NOT_YET = {
@@ -83,6 +123,8 @@ def main():
              'kind_free_text': 'TLC-enumerated dependency graphs replayed into DependencyGraph'},
             {'name': 'mutseq', 'path': 'harness/engines/mutseq.py', 'serves_properties': ['C03', 'C18'],
              'kind_free_text': 'TLC-enumerated mutation sequences replayed through three real pipelines on SQLite'},
+            {'name': 'runs', 'path': 'harness/engines/runs.py', 'serves_properties': ['C04', 'C07', 'C08', 'C17'],
+             'kind_free_text': 'TLC-generated run histories replayed on a synthetic Django project (one interpreter per run); recorded traces validated by EvolverTrace.tla'},
         ],
         'checks': checks,
         'not_applicable': na,
